@@ -1562,7 +1562,7 @@ impl Property for C10 {
         }
     }
     fn rule_text(&self) -> String {
-        "The first indices enumerate completely all histories of <= 2 (quick) / <= 3 (thorough) operations from a 16-letter alphabet over one fixed bundle project. Each further simulated run is one history: a PRNG-generated project (several sources in nested directories, optional bundle DAG with data files and modules outside the input, or a single bundle entry), configuration and 1-12 user operations (edit / break / fix / add / add-require / remove file / remove directory / rename / delete-and-recreate / touch / configuration change incl. filter-only and invalid configurations / transient I/O fault then recovery) interleaved with passes, driven through one long-lived WorkerTree (L1: source_changed / remove_source / collect_work|add_source / process as --watch calls them) over SimFs or the real Memory arm under a chosen enumeration order and std hash seed. After every pass a fresh run on a thread of its own over a copy of the current inputs (output location reset to the pre-existing foreign content) is the reference: output trees (files and directories) and error sets must be equal; a final idle pass must not write. evaluations = process() executions (passes + fresh runs). A history is non-trivial when some pass after the first rewrote a strict non-empty subset of the outputs; distinct = distinct sequence of per-pass normalised op logs.".to_owned()
+        "The first indices enumerate completely all histories of <= 2 (quick) / <= 3 (thorough) operations from a 16-letter alphabet over one fixed bundle project, once through the WorkerTree notification API (L1) and three times through the real FileWatcher behind the notify stub (L2, one per save style). Each further simulated run is one history: a PRNG-generated project (several sources in nested directories, optional bundle DAG with data files and modules outside the input, or a single bundle entry), configuration and 1-12 user operations (edit / break / fix / add / add-require / remove file / remove directory / rename / delete-and-recreate / touch / configuration change incl. filter-only, rule-order-only and invalid configurations / life cycle of the default configuration files / .luaurc, sourcemap and require-mode changes / a module outside the input that starts being required later / a fail-fast pass / transient I/O fault then recovery) interleaved with passes, driven through one long-lived WorkerTree (L1: source_changed / remove_source / collect_work|add_source / process as --watch calls them) over SimFs or the real Memory arm under a chosen enumeration order and std hash seed. After every pass a fresh run on a thread of its own over a copy of the current inputs (output location reset to the pre-existing foreign content) is the reference: output trees (files and directories) and error sets must be equal; a final idle pass must not change the tree. One in ten eligible L1 histories runs in place (no output location, or the input as output): the reference is then a fresh in-place run over a second store that only ever received the user's writes. evaluations = process() executions (passes + fresh runs). A history is non-trivial when some pass after the first rewrote a strict non-empty subset of the outputs; distinct = distinct sequence of per-pass normalised op logs.".to_owned()
     }
     fn assumptions(&self) -> Vec<String> {
         vec![
@@ -1570,7 +1570,7 @@ impl Property for C10 {
             "L1 hard-codes the event-to-call mapping of FileWatcher::process_events; L2 (real FileWatcher behind a stubbed notify/debouncer) is the layer that checks that mapping.".to_owned(),
             "For a source that currently fails, its output may be absent or be bytes darklua itself wrote earlier for it (DESIGN.md 4.3); all other paths are compared exactly.".to_owned(),
             "During a pass with injected I/O faults only no-panic and confinement to the output location are demanded; equality is demanded after the affected path is reported again.".to_owned(),
-            "Lost notifications, .luaurc edits and symlinked inputs are out of scope.".to_owned(),
+            "Lost notifications and symlinked inputs are out of scope; a pass run with fail-fast is judged like a pass under injected faults.".to_owned(),
         ]
     }
     fn components(&self) -> serde_json::Value {
